@@ -157,6 +157,13 @@ def wfMsg (gs : List Group) : Bool :=
    | [] => false
    | g :: _ => g.tag == .OperationAttributes) && gs.all wfGroupC
 
+/-- RFC 8011 §4.1.1 puts the operation attributes first.  What any list of groups becomes on the wire: its
+    first operation group moved to the front (an empty one supplied when there is none), every other
+    group kept, in order.  The identity on `wfMsg` messages. -/
+def opFirst (gs : List Group) : List Group :=
+  ((gs.find? fun g => g.tag == .OperationAttributes).getD ⟨.OperationAttributes, []⟩) ::
+    gs.eraseP fun g => g.tag == .OperationAttributes
+
 /-- `L` lists the same groups, each group's attributes in some iteration order -/
 def ListingOf : List Group → List Group → Prop
   | [], [] => True
